@@ -18,7 +18,10 @@ impl Probe for StageProbe {
         for r in 0..sc.nrep {
             w0.focus();
             let m = &w0.reps[r].m;
-            if !has_staging(m) {
+            // "staged" also covers values left in the data stage without a staged revision
+            // (remove_object of an uncommitted object leaves such values behind)
+            let tree_staged = has_staging(m);
+            if !tree_staged && stage_export(m).is_null() {
                 continue;
             }
             let v0 = w0.view(r);
@@ -95,6 +98,9 @@ impl Probe for StageProbe {
                 }
             }
             // (d) reload / refresh / time travel refuse to run and change nothing
+            if !tree_staged {
+                continue;
+            }
             let mut guarded = vec![Op::Reload(r), Op::Refresh(r)];
             for k in 0..w0.reps[r].heads.len().min(3) {
                 guarded.push(Op::Travel(r, k));
@@ -114,7 +120,11 @@ impl Probe for StageProbe {
         }
     }
     fn on_transition(&self, sc: &Scenario, hist: &[Op], op: &Op, _pre: &World, out: &OpOut, post: &World, cx: &mut Cx) {
-        if let (Op::Commit(r, _), OpOut::Ok(_)) = (op, out) {
+        if let (Op::Commit(r, _), OpOut::Ok(ret)) = (op, out) {
+            if ret == "none" {
+                // nothing was committed (values orphaned by remove_object may remain in the data stage)
+                return;
+            }
             cx.count("nothing_staged_after_commit");
             post.focus();
             let m = &post.reps[*r].m;
@@ -133,7 +143,7 @@ pub fn scenarios(thorough: bool) -> Vec<Scenario> {
     v.push(pair_scenario("pair-arrays", if thorough { &[1, 2, 3, 6, 9, 8] } else { &[2, 3, 6, 8] }, if thorough { 6 } else { 5 },
         &[Op::Resolve(0, 0, 0), Op::Resolve(1, 0, 1), Op::Snapshot(1), Op::Meld(0, 1)]));
     v.push(pair_conflict_scenario("pair-conflict", 2, 3, if thorough { &[1, 6, 8, 4] } else { &[1, 8] }, if thorough { 5 } else { 4 },
-        &[Op::Resolve(1, 0, 0), Op::Resolve(1, 0, 1), Op::Snapshot(1), Op::Travel(1, 0)]));
+        &[Op::Resolve(1, 0, 0), Op::Resolve(1, 0, 1), Op::Snapshot(1), Op::Travel(1, 0), Op::ObjPut(1, 1), Op::ObjRemove(1, 0), Op::ObjRemove(1, 1)]));
     v.push(single_scenario("single-kinds", kind_docs(), if thorough { 4 } else { 3 }, &[Op::Snapshot(0), Op::Travel(0, 0)]));
     for sc in v.iter_mut() {
         sc.track = true;
